@@ -101,7 +101,10 @@ def run_modes(ctx, tr, pats, fn, flags, kw, wit, compare_roots=True):
     # the descriptor number 0 is a descriptor like any other (a directory opened after standard input was closed)
     if DIR_FD_ZERO[0] % 4 == 0:
         fd = os.open(root, os.O_RDONLY | os.O_DIRECTORY)
-        saved = os.dup(0)
+        try:
+            saved = os.dup(0)
+        except OSError:
+            saved = None        # standard input is closed in this process: descriptor 0 is free
         try:
             os.dup2(fd, 0)
             try:
@@ -109,9 +112,13 @@ def run_modes(ctx, tr, pats, fn, flags, kw, wit, compare_roots=True):
             except Exception as e:  # noqa: BLE001
                 results['dir_fd = 0'] = f'raised {type(e).__name__}'
         finally:
-            os.dup2(saved, 0)
-            os.close(saved)
-            os.close(fd)
+            if saved is not None:
+                os.dup2(saved, 0)
+                os.close(saved)
+            else:
+                os.close(0)
+            if fd != 0:
+                os.close(fd)
         ctx.count('dir_fd_zero_runs')
     DIR_FD_ZERO[0] += 1
     cwd = os.getcwd()
